@@ -1140,7 +1140,9 @@ func (x *g) exprOf(k kind, depth int) string {
 		}
 		switch x.intn(6, "dict-e") {
 		case 0, 1:
-			return x.varOr(KDict, func() string { return fmt.Sprintf("{\"p\": %s, \"q\": %s}", x.expr(KInt, depth-1), x.expr(KInt, depth-1)) })
+			return x.varOr(KDict, func() string {
+				return fmt.Sprintf("{\"p\": %s, \"q\": %s}", x.expr(KInt, depth-1), x.expr(KInt, depth-1))
+			})
 		case 2:
 			k2 := x.strLit()
 			if x.risky("dupkey") {
